@@ -245,7 +245,7 @@ class Env:
         return e
 
 
-_BUILTIN_NAMES = {"get_num_threads", "get_thread_id", "range", "len", "abs", "float", "int", "max", "min", "sum", "tuple", "list", "enumerate",
+_BUILTIN_NAMES = {"hash", "bytes", "get_num_threads", "get_thread_id", "range", "len", "abs", "float", "int", "max", "min", "sum", "tuple", "list", "enumerate",
                   "zip", "isinstance", "complex", "bool", "round", "pow", "reversed", "sorted", "print", "dict",
                   "str", "ValueError", "RuntimeError", "TypeError", "NotImplementedError", "Exception",
                   "ZeroDivisionError", "KeyError", "IndexError", "getattr", "hasattr", "callable", "set", "any",
@@ -1709,6 +1709,16 @@ class Interp:
             return any(vals) if name == "any" else all(vals)
         if name == "id":
             return id(args[0])
+        if name == "hash":
+            def unhashable(v):
+                if isinstance(v, (dict, list, set, np.ndarray)):
+                    return True
+                if isinstance(v, tuple):
+                    return any(unhashable(x) for x in v)
+                return False
+            if unhashable(args[0]):
+                raise KpeRaise("TypeError: unhashable type")
+            return 0
         if name == "type":
             return Opaque("type")
         if name in ("ValueError", "RuntimeError", "TypeError", "NotImplementedError", "Exception", "ZeroDivisionError",
